@@ -188,7 +188,7 @@ def playback(scratch, h, profile, kf, log):
     if h.get("cbmc_args"):
         cmd += ["--cbmc-args"] + h["cbmc_args"]
     glog = os.path.join(scratch, "pbgen_%s_%s.log" % (profile, h["name"]))
-    run(cmd, ov, glog, timeout=h.get("cap", 300) * 2 + 300, mem_gb=h.get("mem_gb", 10))
+    run(cmd, ov, glog, timeout=h.get("cap", 300) * 2 + 300, mem_gb=max(24, 2 * h.get("mem_gb", 8)))
     gout = open(glog, errors="replace").read()
     # Kani prints one unit test per failed check AND per satisfied cover, each in a
     # ```rust block; all of them are appended to the overlay copy of the harness file
@@ -201,7 +201,10 @@ def playback(scratch, h, profile, kf, log):
         mm = re.search(r"fn (kani_concrete_playback_\w+)\(\)", b)
         if mm and mm.group(1) not in seen:
             seen.add(mm.group(1))
-            tests.append(b)
+            # keep the test itself only: the doc comment Kani prints in front of it repeats the
+            # (possibly multi-line) assertion text and is not always valid Rust
+            k = b.find("#[test]")
+            tests.append(b[k:] if k >= 0 else b)
     if not tests:
         return dict(reproduced=False, test=None, output="no playback test generated")
     test_src = "\n".join(tests)
